@@ -16,6 +16,9 @@ import Lessm.Model.AtRule
 import Lessm.Model.Str
 import Lessm.Model.Print
 import Lessm.Model.Lex
+import Lessm.Model.LR
+import Lessm.Gen.Grammar
+import Lessm.Gen.Lalr
 
 open Lessm
 
@@ -428,6 +431,20 @@ def run (payload : String) : String :=
     | .ok (sheet, vs) => (Json.arr (vs.toArray.map (fun o => Json.str (format o sheet)))).compress
 end PrintIO
 
+def lrAction : LR.Table := LR.decode Gen.actionEnc
+def lrGoto : LR.Table := LR.decode Gen.gotoEnc
+
+def lrRecognise (ws : List String) : String :=
+  let ids := ws.map (fun w => Gen.terminals.idxOf w)
+  if ids.any (fun i => i ≥ Gen.terminals.length) then "unknown-token"
+  else
+    let bal (tw : List (Nat × Int)) : String := if LR.balanced (Cfg.look tw) ids then "1" else "0"
+    let r := match LR.recognise Gen.prods lrAction lrGoto 0 Gen.startNt ids with
+      | .accept => "accept"
+      | .error k => "error " ++ toString k
+      | .stuck => "stuck"
+    r ++ " | " ++ bal Gen.braceTw ++ bal Gen.parenTw ++ bal Gen.istrTw ++ bal Gen.estrTw
+
 def handle (op : String) (payload : String) : String :=
   let args := (payload.splitOn " ").filter (· ≠ "")
   match op, args with
@@ -443,6 +460,7 @@ def handle (op : String) (payload : String) : String :=
           | some (v, u) => Num.ratStr v ++ " " ++ String.ofList u
           | none => "none"
       | none => "bad-op"
+  | "c15.rec", ws => lrRecognise ws
   | "c12.filter", ws => String.intercalate " " (Lex.filter Gen.significantWs ws)
   | "c09.fn", ws => colorFn ws
   | "c04.eval", ws =>
